@@ -158,6 +158,7 @@ for pid, probes, extra in (
     }, **extra)
 PROFILES['C02'] = {
     'name': 'C02', 'ops': {o: 1.0 for o in ALL_OPS},
+    'md_cats': list(range(14)),
     'alphas': ['ascii', 'num', 'punct', 'slash', 'unicode', 'long', 'ctrl',
                'ctrl'], 'ctrl_md': 0.6,
     'vfams': ['wild', 'wild', 'exact', 'counts'],
